@@ -386,18 +386,27 @@ structure Net where
 
 def reqIds (r : Request) : List Int := r.map (·.id)
 
-/-- `send_batch` → `HttpConnection::send` for one request (http.rs:343-386):
-    take the pooled sender (`poison`) or connect; send; on a response head put the sender back (`unpoison`)
-    and interpret the response; any earlier error or the timeout drops the sender, leaving the slot empty. -/
+/-- The response the collector gives to the next request (`ack` once the script is exhausted). -/
+def Net.nextResp (net : Net) : Resp := net.script.headD .ack
+
+/-- The client counts this response as a success: the head arrived and the status interpretation accepts it. -/
+def okResp (tr : Transport) (r : Resp) : Bool := r.headArrives && interpret tr r
+
+/-- State after one request was transmitted to a live endpoint (http.rs:343-386): the pooled sender was taken
+    (`poison`) or a connection was made (`fresh`); when a response head arrives the sender is put back
+    (`unpoison`), otherwise (error, timeout) it is dropped and the slot stays empty. -/
+def Net.record (net : Net) (r : Request) : Net :=
+  { net with
+    script := net.script.tail
+    slot := net.nextResp.headArrives
+    conns := net.conns + (if net.slot then 0 else 1)
+    log := ⟨if net.nextResp = .rstB then none else some (reqIds r), net.nextResp, !net.slot⟩ :: net.log }
+
+/-- `send_batch` → `HttpConnection::send` for one request. On a dead endpoint `connect` fails: nothing is
+    transmitted and the slot stays empty. -/
 def attempt (tr : Transport) (net : Net) (r : Request) : Bool × Net :=
   if net.dead then (false, { net with slot := false })
-  else
-    let fresh := !net.slot
-    let resp := net.script.headD .ack
-    let e : Entry := ⟨if resp = .rstB then none else some (reqIds r), resp, fresh⟩
-    (resp.headArrives && interpret tr resp,
-     { net with script := net.script.tail, slot := resp.headArrives,
-                conns := net.conns + (if fresh then 1 else 0), log := e :: net.log })
+  else (okResp tr net.nextResp, net.record r)
 
 inductive SendResult where
   | ok
@@ -420,14 +429,16 @@ def send (tr : Transport) : List Request → Net → SendResult × Net
     back-off wait, which has no state); otherwise the batch is dropped. `total` is `Channel::len` of the
     remainder — `total_items` is never decremented by `send`, so it is the batch's item count. -/
 def execBatch (tr : Transport) (total : Nat) : Nat → List Request → Net → Bool × Net
-  | retries, reqs, net =>
+  | 0, reqs, net =>
     match send tr reqs net with
     | (.ok, net') => (true, net')
     | (.noRetry, net') => (false, net')
-    | (.retry rem, net') =>
-      match retries with
-      | 0 => (false, net')
-      | k + 1 => if total > 0 then execBatch tr total k rem net' else (false, net')
+    | (.retry _, net') => (false, net')                 -- `Retry::next` says no: the batch is dropped
+  | k + 1, reqs, net =>
+    match send tr reqs net with
+    | (.ok, net') => (true, net')
+    | (.noRetry, net') => (false, net')
+    | (.retry rem, net') => if total > 0 then execBatch tr total k rem net' else (false, net')
 
 def maxRetries : Nat := 10
 
